@@ -27,11 +27,8 @@ import (
 	"math/big"
 	"os"
 	"runtime/debug"
-	"runtime/pprof"
 	"sort"
 	"sync"
-	"sync/atomic"
-	"time"
 
 	"golang.org/x/crypto/blake2b"
 
@@ -237,8 +234,6 @@ type result struct {
 	oracle string
 }
 
-var tRepo, tCert, tInt atomic.Int64
-
 type harness struct {
 	c *vlib.Check
 }
@@ -282,12 +277,7 @@ func (h *harness) eval(mode consensus.ConsensusMode, pool, total uint64, f *big.
 	fn := "CertifiedNatThresholdWithMode"
 	mn := modeName(mode)
 	rp := tcase{int(mode), pool, total, f.Num().String(), f.Denom().String(), class}
-	t0 := time.Now()
 	T, err := consensus.CertifiedNatThresholdWithMode(pool, total, new(big.Rat).Set(f), mode)
-	tRepo.Add(int64(time.Since(t0)))
-	if d := time.Since(t0); d > time.Second && os.Getenv("C37_TIMING") != "" {
-		fmt.Fprintf(os.Stderr, "slow %.2fs %s\n", d.Seconds(), class)
-	}
 	known := mode == consensus.ConsensusModeCPraos || mode == consensus.ConsensusModeTPraos
 	k := modeBits(mode)
 	desc := func() string {
@@ -302,7 +292,11 @@ func (h *harness) eval(mode consensus.ConsensusMode, pool, total uint64, f *big.
 				ts = fmt.Sprintf("0x%x", T)
 			}
 		}
-		return fmt.Sprintf("%s pool=%d total=%d f=%s -> T=%s err=%v", mn, pool, total, fs, ts, err)
+		es := fmt.Sprintf("%v", err)
+		if len(es) > 160 {
+			es = es[:160] + "…"
+		}
+		return fmt.Sprintf("%s pool=%d total=%d f=%s -> T=%s err=%s", mn, pool, total, fs, ts, es)
 	}
 	// --- inputs outside the domain: an error is required
 	if !known || f.Sign() < 0 || f.Cmp(big.NewRat(1, 1)) > 0 {
@@ -370,7 +364,11 @@ func (h *harness) eval(mode consensus.ConsensusMode, pool, total uint64, f *big.
 				kind = "sigma=1"
 			}
 			c.Eval(class, "wrong")
-			c.Violation(fn+"|not-floor|"+mn+"|"+kind, desc()+fmt.Sprintf(" want %s", want), rp)
+			key := fn + "|not-floor|" + mn + "|" + kind
+			if f.Cmp(big.NewRat(1, 1)) < 0 && T.Cmp(pow2(k)) >= 0 {
+				key = fn + "|not-floor|T>=2^k-although-f<1"
+			}
+			c.Violation(key, desc()+fmt.Sprintf(" want %s", want), rp)
 			return result{T, "wrong"}
 		}
 		c.Eval(class, "floor-confirmed:closed-form")
@@ -382,9 +380,7 @@ func (h *harness) eval(mode consensus.ConsensusMode, pool, total uint64, f *big.
 	g := new(big.Int).GCD(nil, nil, new(big.Int).SetUint64(P), new(big.Int).SetUint64(Q)).Uint64()
 	p, q := P/g, Q/g
 	if q <= 2048 && uint64(dN.BitLen())*p <= 4<<20 {
-		t1 := time.Now()
 		verdict := certificate(T, cN, dN, p, q, k)
-		tCert.Add(int64(time.Since(t1)))
 		if verdict == "" {
 			c.Eval(class, "floor-confirmed:exact-certificate")
 			if q <= 6 && total <= 6 {
@@ -414,8 +410,6 @@ func (h *harness) eval(mode consensus.ConsensusMode, pool, total uint64, f *big.
 		c.Violation(key, desc()+fmt.Sprintf(" (sigma=%d/%d; exact certificate)", p, q), rp)
 		return result{T, "wrong"}
 	}
-	t2 := time.Now()
-	defer func() { tInt.Add(int64(time.Since(t2))) }()
 	ref, ok, bits := intervalFloor(cN, dN, new(big.Int).SetUint64(p), new(big.Int).SetUint64(q), k, 4)
 	if !ok {
 		c.Eval(class, "undecided-by-interval-reference")
@@ -535,11 +529,6 @@ func derive(tag string, seed int64, i, n int) []byte {
 
 func main() {
 	debug.SetGCPercent(400)
-	if pf := os.Getenv("C37_PPROF"); pf != "" {
-		fh, _ := os.Create(pf)
-		_ = pprof.StartCPUProfile(fh)
-		defer pprof.StopCPUProfile()
-	}
 	c := vlib.New("C37", "exploration")
 	h := &harness{c}
 	if c.Replay != "" {
@@ -678,10 +667,6 @@ func main() {
 		j := jobs[i]
 		fv := fs[j.fi]
 		var local []rec
-		if os.Getenv("C37_TIMING") != "" {
-			t0 := time.Now()
-			defer func() { fmt.Fprintf(os.Stderr, "job %s f=%s %.2fs\n", modeName(j.mode), fv.name, time.Since(t0).Seconds()) }()
-		}
 		run := func(s stakes, elig bool) {
 			class := fmt.Sprintf("%s|f=%s|sigma=%d/%d|%s", modeName(j.mode), fv.name, s.pool, s.total, s.tag)
 			r := h.eval(j.mode, s.pool, s.total, fv.r, class)
@@ -733,9 +718,6 @@ func main() {
 		mu.Unlock()
 	})
 
-	if os.Getenv("C37_TIMING") != "" {
-		fmt.Fprintf(os.Stderr, "cpu-ish: repo %.1fs certificate %.1fs interval %.1fs\n", time.Duration(tRepo.Load()).Seconds(), time.Duration(tCert.Load()).Seconds(), time.Duration(tInt.Load()).Seconds())
-	}
 	// ----- corners: f = 0, f = 1, out-of-range f, unknown mode
 	cornerStakes := []stakes{{1, 2, "raw"}, {1, 1, "raw"}, {5, 3, "sigma>1"}, {0, 5, "pool=0"}, {math.MaxUint64 - 1, math.MaxUint64, "huge-denominator"}, {500_000_000, 1_000_000_000, "raw"}}
 	bigNum, _ := new(big.Int).SetString("1000000000000000000000000000000", 10)
@@ -838,7 +820,6 @@ func main() {
 	c.Set("f_values", len(fs))
 	c.Set("grid_stake_pairs", len(grid))
 	c.Set("huge_denominator_stake_pairs", len(huge))
-	pprof.StopCPUProfile()
 	c.Assume("math/big integer arithmetic and blake2b are trusted; total stake 0 and (pool 0, f = 1) have no defined value in the property and are not judged")
 	c.Finish()
 }
